@@ -93,6 +93,19 @@ add("C15", "exploration",
     "Oracle = /verif/ref/refaddr calibrated on the BIP173/BIP350 vector lists, base58_encode_decode.json and the repo's WIF/address vectors. Base58 versions gocoin maps to no script are only checked for not being mapped to P2PKH/P2SH.",
     "DESIGN.md §3 C15")
 
+add("C02", "exploration",
+    "differential runtime monitor: legacy / BIP143 / BIP341-342 digests of the library vs an independent reference (refsighash), sequential and concurrent (-race) cache schedules on one Tx object, end-to-end spends signed by an independent signer, forged signatures over 'no digest' cases",
+    "Held on the cases observed: ~60k single digests over random transactions, indices (incl. SIGHASH_SINGLE out of range), hash types 0..255 / 32-bit, script codes with code separators, embedded signatures and malformed tails, annex/leaf/codesep positions; "
+    "1000 permuted 50-request schedules (200 of them from 8 goroutines in a -race build) all equal to the cache-free reference; ~2.9k end-to-end spends; ~470 forgeries over undefined taproot digests all rejected.",
+    "Oracle = /verif/ref/refsighash calibrated on sighash.json (500), tx_valid.json digests and published signatures, BIP341 wallet vectors (key path); taproot script path/annex are calibrated by hand-derived checks only.",
+    "DESIGN.md §3 C02")
+add("C09", "exploration",
+    "differential runtime monitor: transaction/block decoders vs an independent Core-exact codec (reftx) on valid encodings, every truncation, single-byte mutations, all CompactSize forms at every position, huge counts, marker/flag grid, trailing bytes; journaling child workers under an address-space limit with allocation and hang watchdogs",
+    "Held on the inputs observed: ~270k decodes per quick run (240k distinct): accept/refuse verdicts equal the reference, and on everything both accept, consumed length, re-encoding, txid, wtxid, size, weight, vsize, block weight, Merkle root and mutation flag agree; "
+    "no worker death, no allocation above 64*len+1MiB, no call exceeding the step watchdog.",
+    "Oracle = /verif/ref/reftx calibrated on tx_valid/tx_invalid.json and the genesis block. Hang = 3 s per-case watchdog reproduced 3/3 with the same outermost frame, otherwise inconclusive. Inputs above 32 MiB (MAX_SIZE) are not generated.",
+    "DESIGN.md §3 C09")
+
 NOT_BUILT = {}
 
 def main():
